@@ -1083,7 +1083,10 @@ impl<T: Transport, Env: UtpEnvironment> VirtualSocket<T, Env> {
                 return Ok(Default::default());
             }
             (Closed, _) => {
-                return Err(Error::BugRecvInClosed);
+                // We can get here if a poll that closed the connection stopped early on a
+                // pending transport and more packets were already queued. Nothing to do with them.
+                trace!("ignoring packet in Closed state");
+                return Ok(Default::default());
             }
             (SynReceived, _) => return Err(Error::BugUnexpectedPacketInSynReceived),
             (SynAckSent { .. }, ST_DATA | ST_STATE) => {
